@@ -492,7 +492,7 @@ func main() {
 		kinds = []string{"ec256", "ec384", "rsa2048restr", "rsapkcs3072", "rsapss2048", "rsapss3072"}
 		hopsList = []int{1, 2, 3}
 	}
-	r.Rule("per key type x chain length: an honest TO0 baseline, then one deviation per run applied to the OwnerSign the real TO0Server receives behind the real HTTP handler: EVERY single-node alteration of the message tree under the cbormut operator set (recursing into the to0d bstr, the embedded voucher with its header/entries/certificates, the to1d payload, protected header and signature), every byte ^0x01, every other signer of the key ring (manufacturer, every other owner key, strangers of each key type) through the real TO0Client, replays of an accepted OwnerSign, to1d splices, zero-entry and shortened vouchers, the other hash algorithm; plus 7 TTL policies x 5 requested values. Oracle: response 23 / SetRVBlob => reference predicate on the received bytes (entries>=1, chain verifies, hash(to0d)=To0dHash, nonce issued in this session, to1d verifies under the chain's last key); expiry = now+accepted ttl, reply = accepted ttl, ttl 0/err => 255 and no store. distinct = distinct (key type, class, accepted, reference verdict+reason).")
+	r.Rule("per key type x chain length: an honest TO0 baseline, then one deviation per run applied to the OwnerSign the real TO0Server receives behind the real HTTP handler: EVERY single-node alteration of the message tree under the cbormut operator set (recursing into the to0d bstr, the embedded voucher with its header/entries/certificates, the to1d payload, protected header and signature), every byte ^0x01, every other signer of the key ring (manufacturer, every other owner key, strangers of each key type) through the real TO0Client, replays of an accepted OwnerSign, to1d splices, zero-entry and shortened vouchers, the other hash algorithm; plus 7 TTL policies x 5 requested values. Oracle: response 23 / SetRVBlob => reference predicate on the received bytes (entries>=1, chain verifies, hash(to0d)=To0dHash, nonce issued in this session, to1d verifies under the chain's last key); expiry = now+accepted ttl, reply = accepted ttl, ttl 0/err => 255 and no store. distinct = distinct (key type, class, accepted, reference verdict+reason). Overwrite layer (memory store and real SQLite store): every history of up to 3 (thorough 4) honest registrations of one GUID, each with a time-to-live from {client default = max, 3600, 60} and an owner address of its own: after every registration the stored redirect is the one just sent, its expiry is now + the time-to-live of that registration and the reply reports it, whatever was stored before.")
 	var wg sync.WaitGroup
 	sem := make(chan struct{}, 16)
 	for _, kn := range kinds {
@@ -522,6 +522,11 @@ func main() {
 		go func() { defer wg.Done(); defer func() { <-sem }(); ttlPolicies(k) }()
 	}
 	wg.Wait()
+	owDepth := 3
+	if !r.Quick() {
+		owDepth = 4
+	}
+	overwrites(keys.KindByName("ec256"), owDepth)
 	r.Sample(3, map[string]any{"class": "leaf", "path": "/0/bstr/0/4/0 (first voucher entry)", "op": "tag-strip"})
 	r.Sample(3, map[string]any{"class": "foreign-signer", "signer": "earlier-or-other-owner-owner2"})
 	r.Assume("expiry is checked against the wall clock window of the request (the server computes it from time.Now); ECDSA/RSA/SHA-2 of the standard library are trusted")
